@@ -101,7 +101,7 @@ Lemma mod_switch_refuted :
 Proof. split; reflexivity. Qed.
 Lemma mod_array_size_refuted :
   mod_array_size (CBin BShl (CLit (LU32 1)) (CLit (LU32 32))) = ASize 0 /\           (* array<T, 1u << 32u> has ZERO elements; WGSL: error *)
-  mod_array_size (CBin BSub (CLit (LAI 1)) (CLit (LAI 2))) = ASize 4294967295 /\      (* array<T, 1 - 2> has 4294967295 elements *)
+  mod_array_size (CBin BSub (CLit (LU32 0)) (CLit (LU32 1))) = AError /\             (* array<T, 0u - 1u> is rejected as "not > 0": the u32 difference is -1 in int64 *)
   mod_array_size (CMath2 MMin (CLit (LAI 2)) (CLit (LAI 3))) = ARuntime /\            (* array<T, min(2,3)> silently becomes runtime-sized *)
   mod_array_size (CBin BDiv (CLit (LAI 4)) (CLit (LAI 0))) = ARuntime.               (* array<T, 4 / 0> too: the error is swallowed *)
 Proof. repeat split; reflexivity. Qed.
